@@ -113,7 +113,7 @@ pub fn case_for(id: usize, src: &str, vars: &[(String, Value)]) -> Option<J> {
     match run::compile(src) {
         run::Compiled::Ok(prog, ast) => {
             let (out, log) = run::execute(&prog, vars, true);
-            Some(json!({"ev": "case", "id": id, "src": src, "ast": ast, "vars": run::vars_json(vars), "log": log, "out": out}))
+            Some(json!({"ev": "case", "id": id, "src": src, "text": crate::enc::cps(src), "ast": ast, "vars": run::vars_json(vars), "log": log, "out": out}))
         }
         run::Compiled::Err(_) => None,
         run::Compiled::Panic(_) => None,
@@ -235,7 +235,7 @@ pub fn c02_table(seed: u64, thorough: bool, out: &mut dyn Write) -> Stats {
             // quick tier: every pair for a seeded third of the binary forms
             let vars = vec![("a".to_string(), a.clone()), ("b".to_string(), b.clone())];
             for src in &binary {
-                if !thorough && !rng.chance(1, 4) {
+                if !thorough && !rng.chance(1, 6) {
                     continue;
                 }
                 emit(src, &vars, &mut st, out);
